@@ -751,7 +751,7 @@ def run_state(rec: dict, k: int) -> dict:
         fl["proto_ok"] = got == want
         if got != want:
             where = proto_diff(want, got)
-            finding("DIV", "DIV:proto:" + where.split("[")[0].split(".")[-1], where=where,
+            finding("DIV", "DIV:proto:" + where.split(".")[-1].split("[")[0], where=where,
                     message="the serialized proto differs from the specification's Ser at " + where)
     # ---- (e) round trip ---------------------------------------------------------------------------------------
     try:
